@@ -10,7 +10,7 @@
     [proto.Unmarshal]+[WALFromProto]) is abstract: section variables [ser]/[deser]; the only
     structure the WAL itself looks at is whether a message is an [EndHeightMessage] ([end_height]). *)
 From Coq Require Import List ZArith NArith Bool.
-From Kardia Require Import C15.Crc32c Generated.C15Facts.
+From Kardia Require Import Generated.C15Facts.
 Import ListNotations.
 
 Definition bytes := list N.
@@ -27,15 +27,6 @@ Definition of_be32 (b : bytes) : N :=
   | [a; b; c; d] => (((a * 256 + b) * 256 + c) * 256 + d)%N
   | _ => 0%N
   end.
-
-(** the record Encode writes: 4 bytes CRC-32C, 4 bytes length, payload *)
-Definition frame (p : bytes) : bytes := be32 (crc32c p) ++ be32 (lenN p) ++ p.
-Definition frames (ps : list bytes) : bytes := concat (map frame ps).
-
-(** WALEncoder.Encode after marshalling: [length := uint32(len(data))] is compared with
-    maxMsgSizeBytes; nothing is written when it is larger. *)
-Definition encode (p : bytes) : option bytes :=
-  if (max_msg_size_bytes <? lenN p mod 4294967296)%N then None else Some (frame p).
 
 (** ** Readers.  [Decode] calls [rd.Read(buf)] (not io.ReadFull) three times.
     - [RFile]: an *os.File (repairWalFile): Read of a non-empty buffer returns min(len, remaining)
@@ -69,6 +60,20 @@ Definition rd (k : rkind) (n : nat) (bs : bytes) : bytes * bytes * rstat :=
 Inductive cclass := CCrcRead | CLenRead | CTooBig | CDataRead | CCrc | CDecode.
 
 Section WAL.
+  (** [crc] is crc32.Checksum(data, Castagnoli): [Crc32c.crc32c] in every theorem that needs more
+      than "it is a function"; a section variable so that the model runner may use a fast
+      implementation on megabyte-sized payloads. *)
+  Variable crc : bytes -> N.
+
+  (** the record Encode writes: 4 bytes CRC-32C, 4 bytes length, payload *)
+  Definition frame (p : bytes) : bytes := be32 (crc p) ++ be32 (lenN p) ++ p.
+  Definition frames (ps : list bytes) : bytes := concat (map frame ps).
+
+  (** WALEncoder.Encode after marshalling: [length := uint32(len(data))] is compared with
+      maxMsgSizeBytes; nothing is written when it is larger. *)
+  Definition encode (p : bytes) : option bytes :=
+    if (max_msg_size_bytes <? lenN p mod 4294967296)%N then None else Some (frame p).
+
   Variable msg : Type.
   Variable ser : msg -> bytes.
   Variable deser : bytes -> option msg.
@@ -87,7 +92,7 @@ Section WAL.
     | REof => (OEof, 0%N)
     | RErrEmpty => (OCorrupt CCrcRead r1, 0%N)
     | ROk =>
-      let crc := of_be32 b1 in
+      let crc_read := of_be32 b1 in
       let '(b2, r2, s2) := rd k 4 r1 in
       match s2 with
       | ROk =>
@@ -97,7 +102,7 @@ Section WAL.
           let '(d, r3, s3) := rd k (N.to_nat len) r2 in
           match s3 with
           | ROk =>
-            if (crc32c d =? crc)%N then
+            if (crc d =? crc_read)%N then
               match deser d with
               | Some m => (OMsg m r3, len)
               | None => (OCorrupt CDecode r3, len)
